@@ -104,6 +104,12 @@ def _exc(e):
     return type(e).__name__
 
 
+def _kinds_static(kind):
+    """the part of _kinds() that is plain data (no library object): usable while generating"""
+    return {'interest': dict(outer=5, ic=False, need_name=True), 'data': dict(outer=6, ic=False, need_name=True),
+            'lp': dict(outer=100, ic=True, need_name=False), 'cert': dict(outer=6, ic=False, need_name=True)}[kind]
+
+
 def _kinds():
     from ndn.encoding import ndn_format_0_3 as f
     from ndn.encoding import ndnlp_v2 as lp
@@ -815,9 +821,42 @@ def cases(rng, tier):
             w = b'\x07' + T.tl(len(body)) + body
             w, mut = _mutate(rng, w)
             yield {'kind': 'name', 'wire': w.hex(), 'mut': mut}
+    # --- process history: the decoders keep no state, so what a byte string decodes to must not depend on which packets
+    # the process has decoded BEFORE.  Every ordered pair (and some triples) of packet kinds, hand-built with every
+    # optional element, decoded in that order in a FRESH interpreter (run_impl spawns it); judged packet by packet.
+    kinds = ['interest', 'data', 'lp', 'cert']
+    seqs = [[a, b] for a in kinds for b in kinds if a != b] + [['data', 'interest', 'cert'], ['lp', 'cert', 'data'],
+                                                              ['interest', 'lp', 'data', 'cert'], ['cert', 'data', 'cert']]
+    if tier != 'quick':
+        seqs = seqs * 6
+    import json
+    for sq in seqs:
+        sub = []
+        for kind in sq:
+            # a packet the strict reading (the harness's own reader over the format tables) accepts
+            for _ in range(40):
+                wire, kd = _spec_wire(rng, kind)
+                K = _kinds_static(kind)
+                try:
+                    S.strict_packet(SPEC[kind], wire, K['outer'], K['ic'], K['need_name'])
+                except S.Reject:
+                    continue
+                # ... and that carries its nested models (a SignatureInfo with several elements), so that whatever a
+                # decoder class may keep from one packet to the next has something to keep
+                need = {'interest': '44', 'data': '22', 'cert': '22'}.get(kind)
+                if need is None or (isinstance(kd.get(need), list) and len(kd[need]) > 1 and len(kd[need][1]) >= 2):
+                    break
+            sub.append({'kind': kind, 'wire': wire.hex(), 'mut': 'spec', 'expect': json.dumps(kd, sort_keys=True)})
+        yield {'kind': 'hist', 'seq': sub, 'mut': 'history', 'wire': ''.join(c['wire'] for c in sub)}
 
 
 def shrink(case):
+    if case['kind'] == 'hist':
+        for i in range(len(case['seq'])):
+            if len(case['seq']) > 1:
+                sq = case['seq'][:i] + case['seq'][i + 1:]
+                yield dict(case, seq=sq, wire=''.join(c['wire'] for c in sq))
+        return
     w = bytes.fromhex(case['wire'])
     # only truncation-from-the-end style shrinking keeps TLV structure poorly; try removing trailing bytes of the
     # innermost content by re-mutating is not possible deterministically -> try a few generic candidates
@@ -827,7 +866,37 @@ def shrink(case):
 
 
 # -------------------------------------------------------------------------- implementation
+_HIST_CHILD = '''
+import sys, json
+sys.path.insert(0, %r)
+import lib
+lib.setup_repo_path()
+from props import c07
+seq = json.load(sys.stdin)
+out = []
+for c in seq:
+    try:
+        out.append(c07.run_impl(c))
+    except BaseException as e:      # noqa - the parent reports it as this packet's observation
+        out.append({'crash': type(e).__name__ + ': ' + str(e)[:200]})
+print('HISTORY-RESULT ' + json.dumps(out))
+'''
+
+
+def _run_history(case):
+    import subprocess, sys, os, json
+    here = os.path.dirname(os.path.dirname(os.path.abspath(__file__)))
+    p = subprocess.run([sys.executable, '-c', _HIST_CHILD % here], input=json.dumps(case['seq']), capture_output=True,
+                       text=True, timeout=300)
+    for line in p.stdout.splitlines():
+        if line.startswith('HISTORY-RESULT '):
+            return {'seq': json.loads(line[len('HISTORY-RESULT '):])}
+    raise RuntimeError('history child gave no result: ' + (p.stderr or p.stdout)[-400:])
+
+
 def run_impl(case):
+    if case['kind'] == 'hist':
+        return _run_history(case)
     wire = bytes.fromhex(case['wire'])
     out = {}
     if case['kind'] == 'name':
@@ -920,6 +989,8 @@ def _spec_flags(kind, fs, top=True):
 
 # ------------------------------------------------------------------------------------- model
 def model_line(case, impl):
+    if case['kind'] == 'hist':
+        return None       # every packet of the sequence is an ordinary case of the other streams; here: oracle only
     w = T.hx(bytes.fromhex(case['wire']))
     if case['kind'] == 'name':
         return f'C07 name {w}'
@@ -956,6 +1027,15 @@ def impl_obs(impl):
 
 # ------------------------------------------------------------------------------------- oracle
 def oracle(case, impl):
+    if case['kind'] == 'hist':
+        for i, (c, r) in enumerate(zip(case['seq'], impl['seq'])):
+            if 'crash' in r:
+                return f"packet {i} ({c['kind']}) of a sequence decoded in one fresh process: the decoder run crashed: {r['crash']}"
+            why = oracle(c, r)
+            if why:
+                before = ', '.join(x['kind'] for x in case['seq'][:i]) or 'nothing'
+                return f"packet {i} ({c['kind']}), decoded after {before} in a fresh process: {why}"
+        return None
     d, s = impl['dec'], impl.get('spec', impl['strict'])
     if d[0] == 'err':
         if d[1] not in DOCUMENTED:
@@ -998,10 +1078,14 @@ def _tie_on_flagged(case, impl):
 
 
 def nontrivial(case, impl):
+    if case['kind'] == 'hist':
+        return True
     return impl['dec'][0] == 'ok' or impl['strict'][0] == 'ok' or case['mut'] not in ('random',)
 
 
 def tags(case, impl):
+    if case['kind'] == 'hist':
+        return ['kind:hist', 'history:' + '>'.join(c['kind'] for c in case['seq'])]
     d, s = impl['dec'], impl['strict']
     t = ['kind:' + case['kind'], 'mut:' + case['mut'].split('+')[0], 'dec:' + (d[0] if d[0] == 'ok' else d[1]),
          'strict:' + (s[0] if s[0] == 'ok' else s[1][:30]), 'len:%d' % (len(case['wire']) // 200 * 100)]
